@@ -806,8 +806,15 @@ func (r *runner) bundle1(opIdx int, full bool) bool {
 		eq{F, F, inf, ""}, eq{F, F + 1, inf, ""}, eq{F, F + 1, 0, "maxSize=0"}, eq{L, L + 1, inf, ""}, eq{L + 1, L + 1, inf, ""},
 		eq{sub(F, 1), F + 1, inf, ""}, eq{F, L + 2, inf, ""}, eq{L + 1, L + 2, inf, ""}, eq{sub(F, 1), L + 2, inf, ""}, eq{L, L + 2, 0, ""},
 		eq{L + 2, L + 3, inf, ""}, eq{0, 1, inf, ""}, eq{sub(L, 3), L + 1, inf, ""})
+	heavy := r.m.bytes > 6<<20
+	if heavy && len(bounds) > 3 {
+		bounds = bounds[len(bounds)-3:]
+	}
 	for _, b := range bounds {
 		lo, hi := max(sub(b, 2), F), min(b+2, L+1)
+		if heavy {
+			lo, hi = max(sub(b, 1), F), min(b+1, L+1)
+		}
 		if lo <= hi {
 			tag := ""
 			if _, s0 := r.fileOf(b); s0 && b > F {
@@ -827,6 +834,12 @@ func (r *runner) bundle1(opIdx int, full bool) bool {
 			n := 1 + rng.Uint64N(300)
 			if k == 0 {
 				n = 1 + rng.Uint64N(3000)
+			}
+			if heavy {
+				if k >= 3 {
+					break
+				}
+				n = 1 + rng.Uint64N(3)
 			}
 			hi := min(lo+n, L+1)
 			var mx uint64 = inf
